@@ -78,16 +78,30 @@ theorem filter_map_abs (l : List (ListElem Code.CipherEntry)) (p : Entry → Boo
   | nil => rfl
   | cons e rest ih => cases h : p (absEntry e) <;> simp [List.filter_cons, h, ih]
 
+/-- the snapshot, explicitly: the elements whose entry was last used by this client IP, then the others -/
+def snapOf (l : List (ListElem Code.CipherEntry)) (ip : Opaque "netip.Addr") : List (ListElem Code.CipherEntry) :=
+  l.filter (fun e => matchesIP (absIP ip) (absEntry e)) ++ l.filter (fun e => !matchesIP (absIP ip) (absEntry e))
+
+theorem mem_snapOf (l : List (ListElem Code.CipherEntry)) (ip : Opaque "netip.Addr") (e : ListElem Code.CipherEntry) :
+    e ∈ snapOf l ip ↔ e ∈ l := by
+  simp only [snapOf, List.mem_append, List.mem_filter]
+  constructor
+  · rintro (h | h) <;> exact h.1
+  · intro h
+    cases hq : matchesIP (absIP ip) (absEntry e)
+    · exact Or.inr ⟨h, by simp [hq]⟩
+    · exact Or.inl ⟨h, by simp [hq]⟩
+
 /-- **SnapshotForClientIP**: never panics (every store is within the array), leaves the list alone, and returns
     the model's two-pass permutation: the entries last used by this client IP first, the others after, each
     group in list order -/
 theorem snapshot_tie (cl : Code.cipherList) (ip : Opaque "netip.Addr") :
-    ∃ snap, Code.cipherList.SnapshotForClientIP cl ip = some (cl, snap) ∧
-      snap.map absEntry = snapshot (cl.list.map absEntry) (absIP ip) := by
+    Code.cipherList.SnapshotForClientIP cl ip = some (cl, snapOf cl.list ip) ∧
+      (snapOf cl.list ip).map absEntry = snapshot (cl.list.map absEntry) (absIP ip) := by
   let q : ListElem Code.CipherEntry → Bool := fun e => matchesIP (absIP ip) (absEntry e)
   let z : ListElem Code.CipherEntry := { id := 0, Value := Code.CipherEntry.zero }
-  refine ⟨cl.list.filter q ++ cl.list.filter (fun e => !q e), ?_, ?_⟩
-  · unfold Code.cipherList.SnapshotForClientIP
+  refine ⟨?_, ?_⟩
+  · unfold Code.cipherList.SnapshotForClientIP snapOf
     have hlen : (GoRT.len cl.list).toNat = cl.list.length := by simp [GoRT.len]
     have h1 := fill z q
       (fun e s => do
@@ -117,7 +131,8 @@ theorem snapshot_tie (cl : Code.cipherList) (ip : Opaque "netip.Addr") :
     simp only [Option.bind_some]
     rw [h2]
     simp only [Option.bind_some, pure]
-  · simp only [List.map_append, snapshot]
+    rfl
+  · simp only [snapOf, List.map_append, snapshot]
     rw [← filter_map_abs, ← filter_map_abs]
 
 /-- **Update** replaces the list wholesale -/
